@@ -64,6 +64,8 @@ InitState(cfg) ==
    stopAt |-> -1,           \* Stop(): deadline at which the context is cancelled
    events |-> <<>>,         \* notifications delivered to OnChangeState callbacks
    everLogged |-> FALSE,
+   saveFailFrom |-> 0,      \* the application's message store refuses every Save from this one on (0: never)
+   nsaves |-> 0,            \* Save calls so far
    staleTR |-> FALSE]       \* (trace validation) a TestRequest of a timer that outlived a logout was tolerated
 
 IsLogged(s)  == s.st = "SL"
@@ -78,11 +80,15 @@ TinMs(s)     == (s.hb + Tol(s)) * 1000
 \* ---- the send path: number, stamp, save, enqueue ---------------------------
 \* every send attempt consumes a number; the message is saved under it before
 \* it reaches the wire
+\* the store refuses the next Save: the message gets its number and is then neither stored nor transmitted (C19)
+Failing(s) == s.saveFailFrom > 0 /\ s.nsaves + 1 >= s.saveFailFrom
 Emit(s, m0) ==
   LET n == s.outSeq + 1
       m == [m0 EXCEPT !.seq = n]
       pos == Len(s.sent) + 1
-  IN [s EXCEPT !.outSeq = n,
+  IN IF Failing(s) THEN [s EXCEPT !.outSeq = n, !.nsaves = s.nsaves + 1]
+     ELSE [s EXCEPT !.outSeq = n,
+               !.nsaves = s.nsaves + 1,
                !.sent = Append(s.sent, m),
                !.store = [k \in 1..n |-> IF k = n THEN pos ELSE IF k <= Len(s.store) THEN s.store[k] ELSE 0],
                !.lastOut = s.now,
